@@ -9,8 +9,9 @@ TPool == IsEvent("Pool") /\ PoolOK(Ev)
 TLookup == IsEvent("Lookup") /\ LookupOK(Ev)
 TRange == IsEvent("Range") /\ RangeOK(Ev)
 TTold == IsEvent("Told") /\ ToldOK(Ev)
+TCapacity == IsEvent("Capacity") /\ CapacityOK(Ev)
 TReset == IsEvent("Reset")
-TNext == TPool \/ TLookup \/ TRange \/ TTold \/ TReset
+TNext == TPool \/ TLookup \/ TRange \/ TTold \/ TCapacity \/ TReset
 TraceSpec == TInit /\ [][TNext]_tvars
 TraceAccepted ==
     LET d == TLCGet("stats").diameter IN
